@@ -2,10 +2,16 @@ use std::io::{BufRead, Write};
 use std::sync::atomic::{AtomicU64, Ordering};
 
 pub static PANICS: AtomicU64 = AtomicU64::new(0);
+pub static LAST_PANIC: std::sync::Mutex<String> = std::sync::Mutex::new(String::new());
 
 pub fn install_panic_hook() {
     std::panic::set_hook(Box::new(|info| {
         PANICS.fetch_add(1, Ordering::SeqCst);
+        if let Ok(mut g) = LAST_PANIC.try_lock() {
+            if g.is_empty() {
+                *g = info.location().map(|l| format!("{}:{}", l.file(), l.line())).unwrap_or_default();
+            }
+        }
         if std::env::var_os("VERIF_SHOW_PANICS").is_some() {
             eprintln!("panic: {info}");
         }
